@@ -193,7 +193,13 @@ func vfC04Timing(e *vfEnv, r *vfResult, idx int) { //nolint:cyclop
 			s.deliver(dg.ID, false)
 			s.dropAll()
 			s.tickSide(s.A)
-			if time.Since(t1) < d/2 || d == 0 {
+			// judged only when the tick came well before the first threshold that applies: the disconnected timeout, or -
+			// with that one disabled - the failed timeout (Connected goes straight to Failed then)
+			first := d
+			if first == 0 {
+				first = f
+			}
+			if first == 0 || time.Since(t1) < first/2 {
 				sn2 := s.A.snapshot()
 				if sn2.Err == nil && sn2.State != ConnectionStateConnected {
 					s.viol("C04", "timing:traffic-resumed-not-connected", fmt.Sprintf("traffic from the selected remote arrived %v ago (disconnected timeout %v) but the state after the tick is %s", time.Since(t1), d, sn2.State), nil)
